@@ -275,6 +275,10 @@ class ClassParser(BaseParser):
 
             context = self.options.make_context(_obj_self.__class__, force_error=True)
             value = field.parse_value(value, context=context)
+            if unprovided(value):
+                # rejected under an 'exclude' policy (a warning was given): the assignment is dropped,
+                # the sentinel must never be stored
+                return
             _obj_self.__dict__[field.attname] = value
             if callable(post_setattr):
                 post_setattr(_obj_self, field, value, context)
